@@ -355,7 +355,7 @@ const LEAN_KEYWORDS: &[&str] = &[
     "instance", "class", "structure", "theorem", "def", "where", "local", "private", "section", "namespace", "variable",
     "universe", "set_option", "return", "for", "unless", "mut", "macro", "syntax", "notation", "prefix", "infix",
     "postfix", "deriving", "extends", "Type", "Prop", "Sort", "using", "calc", "obtain", "suffices", "exists", "out",
-    "down", "self_", "self0", "r", "p",
+    "down", "self_", "self0", "r", "p", "next",
 ];
 
 fn ident(s: &str) -> String {
